@@ -1,6 +1,6 @@
 (* Property C11 — cache serialization is faithful (binary layer).  Statements only. *)
 From Coq Require Import ZArith List String Bool.
-From C11 Require Import Prim Schema Tables ProofsPrim ProofsSchema Json ProofsJson Types ProofsTypes ProofsMono ProofsGen.
+From C11 Require Import Prim Schema Tables ProofsPrim ProofsSchema Json ProofsJson Types ProofsTypes ProofsMono JsonText ProofsJsonText JsonSchema ProofsJsonSchema Fixup ProofsFixup ProofsGen.
 From Gen Require Import Schemas.
 Import ListNotations.
 Open Scope Z_scope.
@@ -148,6 +148,62 @@ Theorem extracted_class_roundtrip : forall n name w r, In (name, (w, r)) schemas
     read_op (OR n) ER r (bs ++ rest) = Some (vs, rest).
 Proof. exact closed_extracted. Qed.
 Print Assumptions extracted_class_roundtrip.
+
+(* ---- JSON format *)
+(* the textual encoding (json.dumps sort_keys, compact separators, ensure_ascii) and its parser: all values, any nesting *)
+Theorem json_text_roundtrip : forall v, jvalid v -> json_loads (json_dumps v) = Some v.
+Proof. exact json_text_rt. Qed.
+Print Assumptions json_text_roundtrip.
+
+(* deserialize (serialize v) = v for every keyed schema with distinct keys, all values *)
+Theorem json_roundtrip : forall ne nd, (forall v j, ne v = Some j -> nd j = Some v) ->
+  forall s vs j, jschema_ok s = true -> jser ne s vs = Some j -> jdeser nd s j = Some vs.
+Proof. exact json_rt. Qed.
+Print Assumptions json_roundtrip.
+
+Theorem json_file_roundtrip : forall ne nd, (forall v j, ne v = Some j -> nd j = Some v) ->
+  forall s vs j, jschema_ok s = true -> jser ne s vs = Some j -> jvalid j ->
+  bind (json_loads (json_dumps j)) (jdeser nd s) = Some vs.
+Proof. exact json_file_rt. Qed.
+Print Assumptions json_file_roundtrip.
+
+(* formats agree ON VALUES: for every class with an extracted binary schema and a derived JSON schema, the fields
+   decoded from the binary encoding equal the fields decoded from the JSON text *)
+Theorem formats_agree_on_values_partial :
+  forall ow or ew er of ne nd,
+    (forall t fs bs rest, ow t fs = Some bs -> of t fs = true -> or t (bs ++ rest) = Some (fs, rest)) ->
+    (forall k p bs rest, ew k p = Some bs -> er k (bs ++ rest) = Some (p, rest)) ->
+    (forall v j, ne v = Some j -> nd j = Some v) ->
+    forall name w r s, In (name, (w, r, s)) json_schemas ->
+    forall vs bs j,
+      write_op ow ew w vs = Some (bs, []) -> fits of r vs = Some [] -> jser ne s vs = Some j -> jvalid j ->
+      bind (read_op or er r bs) (fun x => Some (fst x)) = bind (json_loads (json_dumps j)) (jdeser nd s).
+Proof. exact extracted_formats_agree. Qed.
+Print Assumptions formats_agree_on_values_partial.
+
+(* ---- fixup *)
+Theorem fixup_restores_references : forall resolve g,
+  well_scoped resolve g -> fixup resolve (store g) = in_memory g.
+Proof. exact fixup_restores. Qed.
+Print Assumptions fixup_restores_references.
+
+Theorem lookup_fully_qualified_finds_definition : forall ms m t p e,
+  p <> [] -> m <> [] -> find_mod m ms = Some t -> descend t p = Some e ->
+  (forall k, (List.length m < k)%nat -> (k < List.length (m ++ p))%nat -> find_mod (firstn k (m ++ p)) ms = None) ->
+  lookup_fq ms (m ++ p) = Some e.
+Proof. exact lookup_finds_definition. Qed.
+Print Assumptions lookup_fully_qualified_finds_definition.
+
+Theorem lookup_of_missing_module_is_none : forall ms path,
+  (forall k, (0 < k)%nat -> (k < List.length path)%nat -> find_mod (firstn k path) ms = None) -> lookup_fq ms path = None.
+Proof. exact lookup_missing_module. Qed.
+Print Assumptions lookup_of_missing_module_is_none.
+
+(* ---- determinism: every serialized attribute declared as a set goes through sorted(...) in both formats *)
+Theorem set_fields_written_sorted :
+  forallb (fun e : string * string * (bool * bool) => fst (snd e) && snd (snd e)) set_fields = true.
+Proof. exact set_fields_sorted. Qed.
+Print Assumptions set_fields_written_sorted.
 
 (* hypotheses are satisfiable on non-trivial data *)
 Example hypotheses_satisfiable :
